@@ -76,9 +76,9 @@ def tx_payload(parent, label):
     raise KeyError(label)
 
 
-def tx_universe(root_kind='easy'):
+def tx_universe(root_kind='easy', mined=True):
     root = world.easy_root() if root_kind == 'easy' else world.genesis_node()
-    return world.Universe(root, tx_payload)
+    return world.Universe(root, tx_payload, None if mined else {'pow_ok': None})
 
 
 # ------------------------------------------------------------------ histories -----------------------
